@@ -50,7 +50,8 @@ CONSTANTS
 %s
 CHECK_DEADLOCK FALSE
 """
-INV = "INVARIANTS StreamIntegrity InOrderOnce CiphertextOnly"
+INV = ("INVARIANTS StreamIntegrity InOrderOnce CiphertextOnly\n"
+       "PROPERTIES ChannelSteps ChannelContent")
 TR = """SPECIFICATION TraceSpec
 CONSTANTS
   TraceFile = "%s"
